@@ -6,7 +6,7 @@ VERIF = os.path.abspath(os.path.join(os.path.dirname(os.path.abspath(__file__)),
 
 # --------------------------------------------------------------------------- TLC engines
 CORE_OPS = {"new", "clone", "clonef", "drop", "set", "clear", "mark", "collect", "unwrap", "fagain", "put", "take"}
-BASE = dict(N=3, NS=2, NP=0, NW=0, FIN=True, WEAK=True, DBG=True, MAXRC=100, MaxRoots=2, MaxWRoots=0,
+BASE = dict(N=3, NS=2, NP=0, NW=0, FIN=True, WEAK=True, DBG=True, MAXRC=16382, MAXWC=32767, MaxRoots=2, MaxWRoots=0,
             MaxOps=6, MaxFaults=0, MaxTraceK=0, BUG_STALE_TC=False, BUG_NESTED_FLAGS=False, OPS=CORE_OPS,
             AUTOF=True, AUTO0=False, SZ=152)
 
@@ -41,6 +41,9 @@ ENGINES = {
     'cyc': _eng('cyc', dict(N=2, NS=1, NW=1, AUTO0=True, MaxOps=5, MaxFaults=1, MaxTraceK=1, MaxWRoots=2,
                             OPS={"newcyc", "new", "drop", "clone", "put", "collect", "upgrade", "dropw", "upgradef", "unwrap"}),
                 dict(MaxOps=7), {'quick': ['all-dev'], 'thorough': ['all-dev', 'all-rel']}),
+    # saturation of the strong / weak counters at their real limits (bulk operations), later life of the object
+    'sat': _eng('sat', dict(N=2, NS=1, NW=1, MaxOps=6, MaxWRoots=2, OPS={"new", "sat", "clone", "drop", "put", "collect", "downgrade", "upgrade", "dropw", "unwrap"}),
+                dict(MaxOps=7), {'quick': ['all-dev'], 'thorough': ['all-dev', 'nofin-rel']}),
     'faultnofin': _eng('faultnofin', dict(FIN=False, MaxOps=5, MaxFaults=1, MaxTraceK=3, OPS=CORE_OPS - {"fagain"}), dict(MaxOps=7), {'quick': ['nofin-rel'], 'thorough': ['nofin-dev', 'nofin-rel']}),
 }
 
@@ -69,10 +72,10 @@ def graph_conformance(tier, seed):
     return st
 
 
-GRAPH_PROPS = ['C01', 'C02', 'C03', 'C04', 'C05', 'C06', 'C07', 'C08', 'C09', 'C11', 'C12', 'C13', 'C14', 'C15']
+GRAPH_PROPS = ['C01', 'C02', 'C03', 'C04', 'C05', 'C06', 'C07', 'C08', 'C09', 'C11', 'C12', 'C13', 'C14', 'C15', 'C16']
 
 
-GRAPH_ENGINES = ['core', 'pin', 'nofin', 'fault', 'faultnofin', 'weak', 'weaknofin', 'auto', 'cyc']
+GRAPH_ENGINES = ['core', 'pin', 'nofin', 'fault', 'faultnofin', 'weak', 'weaknofin', 'auto', 'cyc', 'sat']
 
 
 def plan(pid, tier, seed):
